@@ -42,7 +42,22 @@ func (s *sliceLexer) Next() (lexer.Token, error) {
 	return t, nil
 }
 
-func mkTokens(stream string) []lexer.Token {
+// numberings of the four token types: token types are arbitrary integers, so a set of them must not
+// confuse types that are congruent modulo a word size ("B:", "C:" prefixes of the elision string)
+var numberings = map[string]map[byte]lexer.TokenType{
+	"":   typeNames,
+	"B:": {'X': tE - 64, 'Y': tF - 256, 'e': tE, 'f': tF, '$': lexer.EOF},
+	"C:": {'X': tE - 32, 'Y': tE - 128, 'e': tE, 'f': tF, '$': lexer.EOF},
+}
+
+func splitElide(el string) (map[byte]lexer.TokenType, string) {
+	if len(el) >= 2 && el[1] == ':' {
+		return numberings[el[:2]], el[2:]
+	}
+	return typeNames, el
+}
+
+func mkTokens(stream string, typeNames map[byte]lexer.TokenType) []lexer.Token {
 	var out []lexer.Token
 	for i := 0; i < len(stream); i++ {
 		out = append(out, lexer.Token{Type: typeNames[stream[i]], Value: fmt.Sprintf("%c%d", stream[i], i), Pos: lexer.Position{Offset: i, Line: 1, Column: i + 1}})
@@ -364,16 +379,21 @@ func (e *explorer) successors(s *state) []*state {
 }
 
 func (e *explorer) run() {
-	toks := mkTokens(e.stream)
+	typeNames, elideSet := splitElide(e.elide)
+	toks := mkTokens(e.stream, typeNames)
 	var el []lexer.TokenType
 	elide := map[lexer.TokenType]bool{}
-	for i := 0; i < len(e.elide); i++ {
-		el = append(el, typeNames[e.elide[i]])
-		elide[typeNames[e.elide[i]]] = true
+	for i := 0; i < len(elideSet); i++ {
+		el = append(el, typeNames[elideSet[i]])
+		elide[typeNames[elideSet[i]]] = true
 	}
 	var pl *lexer.PeekingLexer
 	var err error
 	pan, msg := hx.Guard(func() { pl, err = lexer.Upgrade(&sliceLexer{toks: toks}, el...) })
+	// the caller owns the slice it passed and re-uses it: the lexer's elision set must not follow
+	for i := range el {
+		el[i] = typeNames['X']
+	}
 	init := &state{}
 	if pan || err != nil {
 		e.fail(init, "Upgrade", "panic", "no panic", msg+fmt.Sprint(err))
@@ -447,6 +467,11 @@ func jobs(maxLen int) []jobT {
 		for _, el := range []string{"ef", "e", "", "ef$"} { // "$": the EOF type itself is in the elision set
 			out = append(out, jobT{s, el})
 		}
+		if len(s) < maxLen {
+			for _, el := range []string{"B:ef", "B:e", "C:ef", "C:e"} {
+				out = append(out, jobT{s, el})
+			}
+		}
 	}
 	return out
 }
@@ -464,7 +489,7 @@ func plan(c *hx.Ctx) *hx.Plan {
 			(&explorer{w: w, stream: js[i].stream, elide: js[i].elide}).run()
 		},
 		Describe: func(i int) string { return fmt.Sprintf("stream=%q elide=%q", js[i].stream, js[i].elide) },
-		Rule:     "every token stream of length <= bound over {X,Y (ordinary), e,f (elidable)} x elision sets {ef, e, none, ef+EOF}; per stream BFS to a FIXPOINT over Next, FastForward(c) for every c (model equality for cursors a PeekAny returns, invariants for others), Save/Load of 2 checkpoint slots; in every reachable state all of Peek, RawPeek, Cursor, RawCursor, PeekAny x 6 predicates and Range(i,j) for all i<=j are compared with the model. evaluations = (stream, elision set) pairs; distinct_nontrivial = distinct (stream, elision, reachable-state-count) triples; states/transitions = real-object states visited / operations executed",
+		Rule:     "every token stream of length <= bound over {X,Y (ordinary), e,f (elidable)} x elision sets {ef, e, none, ef+EOF} (+ for streams below the bound: two further numberings of the token types in which ordinary and elided types are congruent modulo 32/64/128/256; the slice passed to Upgrade is overwritten by the caller afterwards); per stream BFS to a FIXPOINT over Next, FastForward(c) for every c (model equality for cursors a PeekAny returns, invariants for others), Save/Load of 2 checkpoint slots; in every reachable state all of Peek, RawPeek, Cursor, RawCursor, PeekAny x 6 predicates and Range(i,j) for all i<=j are compared with the model. evaluations = (stream, elision set) pairs; distinct_nontrivial = distinct (stream, elision, reachable-state-count) triples; states/transitions = real-object states visited / operations executed",
 		Bounds:   map[string]any{"max_stream_len": maxLen, "checkpoint_slots": 2, "predicates": len(preds), "search": "fixpoint (not depth bounded)"},
 		Assume:   []string{"token identity is observed through pointer identity into the lexer's own token slice (Range)", "streams longer than the bound behave like shorter ones (small-scope hypothesis)"},
 	}
